@@ -18,14 +18,18 @@ import (
 	"fmt"
 	"go/token"
 	"go/types"
+	"os"
 )
 
 const addTok = token.ADD
 
 func runReadFromSim(c *Ctx, ruleAlien, ruleMissing string, ruleSrcFailOpt ...string) {
-	ruleSrcFail := ""
+	ruleSrcFail, ruleFrag := "", ""
 	if len(ruleSrcFailOpt) > 0 {
 		ruleSrcFail = ruleSrcFailOpt[0]
+	}
+	if len(ruleSrcFailOpt) > 1 {
+		ruleFrag = ruleSrcFailOpt[1]
 	}
 	p := c.P
 	rf := p.Func("smf", "ReadFrom")
@@ -37,15 +41,26 @@ func runReadFromSim(c *Ctx, ruleAlien, ruleMissing string, ruleSrcFailOpt ...str
 	if first == "" {
 		first = ruleSrcFail
 	}
+	if first == "" {
+		first = ruleFrag
+	}
 	if rf == nil || smfT == nil {
 		c.Unk(first, "ReadFrom simulation anchors", "-", "not resolved")
 		return
 	}
 	c.Fn(FuncName(rf))
-	for _, declared := range []int64{2, 3, -2, -3} {
+	for _, declared := range []int64{2, 3, -2, -3, -4} {
 		rule := ruleAlien
 		if declared == 3 {
 			rule = ruleMissing
+		}
+		frag := declared == -4
+		if frag {
+			// the same file through a source that fragments arbitrarily: the result must be the same (C09)
+			rule, declared = ruleFrag, 2
+			if rule == "" {
+				continue
+			}
 		}
 		srcFail := declared < 0
 		failWith := ""
@@ -63,6 +78,8 @@ func runReadFromSim(c *Ctx, ruleAlien, ruleMissing string, ruleSrcFailOpt ...str
 		ex := NewExec(p)
 		ex.Unroll = 12
 		ex.ReaderMayFail = srcFail
+		ex.ReaderFrag = frag
+		ex.StrictHeap = true // the file is fully known: a run that has to forget the heap is undecided at once
 		ex.ReaderFailSentinel = failWith
 		st := ex.NewState()
 		k8 := func(v int64) Val { return mkConst(v, 8, false) }
@@ -101,8 +118,22 @@ func runReadFromSim(c *Ctx, ruleAlien, ruleMissing string, ruleSrcFailOpt ...str
 		total := st.Arith(addTok, st.Convert(L, 64, true), mkConst(int64(len(head)+len(tail)), 64, true), "")
 		src := &SliceV{Obj: id, Off: mkConst(0, 64, true), Len: total, Cap: total}
 		rd := ex.readerOver(st, src)
+		if os.Getenv("ABSDEBUG") != "" && frag {
+			forkProfile = map[string]int{}
+		}
 		outs := ex.Call(st, rf, []Val{rd, &SliceV{Nil: true, Off: mkConst(0, 64, true), Len: mkConst(0, 64, true), Cap: mkConst(0, 64, true)}}, nil)
+		if forkProfile != nil {
+			for k, v := range forkProfile {
+				if v > 100 {
+					fmt.Fprintf(os.Stderr, "fork %6d %s\n", v, k)
+				}
+			}
+			forkProfile = nil
+		}
 		key := fmt.Sprintf("whole-file read simulation (header declares %d tracks, file holds 2)", declared)
+		if frag {
+			key = "whole-file read simulation through a fragmenting source (every Read delivers an arbitrary positive count; the last data may come together with io.EOF)"
+		}
 		if srcFail {
 			key = "whole-file read simulation with a failing source"
 			if failWith != "" {
@@ -110,7 +141,11 @@ func runReadFromSim(c *Ctx, ruleAlien, ruleMissing string, ruleSrcFailOpt ...str
 			}
 		}
 		if ex.Budget || len(outs) == 0 {
-			c.Unk(rule, key, p.Pos(rf.Pos()), fmt.Sprintf("abstract interpretation did not complete (budget=%v, stats=%+v)", ex.Budget, ex.Stats))
+			why := fmt.Sprintf("abstract interpretation did not complete (budget=%v, stats=%+v)", ex.Budget, ex.Stats)
+			for u := range ex.Unsupported {
+				why += "; " + u
+			}
+			c.Unk(rule, key, p.Pos(rf.Pos()), why)
 			continue
 		}
 		bad := false
